@@ -7,8 +7,21 @@ from pyvc.values import (V, Int, Str, Bool, SeqV, NONE, ABSENT, TRUE, FALSE, tru
 from specs.ev import EV, EVX, EV3, EVX3, D, okD, okN
 from specs.strings import fmt, fmt_ok, wfp, is_literal, litval, walk, jsonlike
 from specs.rules import lookup
+from specs.printer import pr
+from specs.wf import wf_tree, evalok, tree_axioms, eval_axioms, ctx_ok, http_ctx
+from pyvc.builtins_ import f_join
 from pyvc.builtins_ import f_lower, f_split
 from .util import rules_store_pre, mapping, json_axioms, walk_unfold, args5, eval_defs, is_check, all_checks, forall_idx, exists_idx, EVAL_RAISES
+
+
+def ev_axioms(cx):
+    t, c = args5(cx)[1], args5(cx)[2]
+    return eval_axioms(cx.eng, cx.st0) + json_axioms(cx.eng, c)
+
+
+def ev_pre(cx):
+    s, t, c, e, cur = args5(cx)
+    return [('evaluable-in-context', evalok(s, t, c, e))]
 
 
 def register(reg, stubs, world):
@@ -46,7 +59,10 @@ def register(reg, stubs, world):
 
     # ------------------------------------------------------------------ _check
     def check_pre(cx):
-        return [('rule-is-a-check', is_check(cx.eng, cx['rule']))]
+        return [('rule-is-evaluable-in-context', evalok(cx['rule'], cx['target'], cx['creds'], cx['enforcer']))]
+
+    def check_axioms(cx):
+        return eval_axioms(cx.eng, cx.st0) + json_axioms(cx.eng, cx['creds'])
 
     def check_post(cx, out):
         r, t, c, e, cur = cx['rule'], cx['target'], cx['creds'], cx['enforcer'], cx['current_rule']
@@ -68,12 +84,12 @@ def register(reg, stubs, world):
         return [z3.Implies(three, z3.And(EV(r, t, c, e, cur) == EV3(r, t, c, e),
                                          EVX(r, t, c, e, cur) == EVX3(r, t, c, e)))]
     reg.add(Contract('_checks:_check', pre=check_pre, post=check_post, defs=check_defs, raises=EVAL_RAISES,
+                     axioms=check_axioms,
                      props=('C01', 'C06', 'C16'),
                      doc='evaluates rule with target, creds, enforcer unchanged; current_rule iff the class takes it'))
 
     # ------------------------------------------------------------------ not
-    def not_pre(cx):
-        return [('operand-is-a-check', is_check(cx.eng, cx.old(cx['self'], 'rule')))]
+    not_pre = ev_pre
 
     def not_post(cx, out):
         s, t, c, e, cur = args5(cx)
@@ -83,11 +99,11 @@ def register(reg, stubs, world):
                     ('negates', out.value == mk_bool(z3.Not(D(ch, t, c, e, cur))))]
         return [('propagates-child-exception', EVX(ch, t, c, e, cur) == cx.eng.cid(out.exc.cname))]
     reg.add(Contract('_checks:NotCheck.__call__', pre=not_pre, post=not_post, defs=eval_defs, raises=EVAL_RAISES,
+                     axioms=ev_axioms,
                      props=('C01', 'C06')))
 
     # ------------------------------------------------------------------ and / or
-    def conn_pre(cx):
-        return all_checks(cx.eng, cx.st0, cx.old(cx['self'], 'rules'))
+    conn_pre = ev_pre
 
     def and_post(cx, out):
         s, t, c, e, cur = args5(cx)
@@ -106,6 +122,7 @@ def register(reg, stubs, world):
         s, t, c, e, cur = args5(L.cx)
         return [('all-earlier-allowed', forall_idx(L.i, lambda k: okD(L.elem(k), t, c, e, cur), 'inv'))]
     reg.add(Contract('_checks:AndCheck.__call__', pre=conn_pre, post=and_post, defs=eval_defs, raises=EVAL_RAISES,
+                     axioms=ev_axioms,
                      loops={1: LoopSpec(and_inv)}, props=('C01', 'C06')))
 
     def or_post(cx, out):
@@ -125,14 +142,11 @@ def register(reg, stubs, world):
         s, t, c, e, cur = args5(L.cx)
         return [('all-earlier-denied', forall_idx(L.i, lambda k: okN(L.elem(k), t, c, e, cur), 'inv'))]
     reg.add(Contract('_checks:OrCheck.__call__', pre=conn_pre, post=or_post, defs=eval_defs, raises=EVAL_RAISES,
+                     axioms=ev_axioms,
                      loops={1: LoopSpec(or_inv)}, props=('C01', 'C06')))
 
     # ------------------------------------------------------------------ rule:NAME  (C06)
-    def rule_pre(cx):
-        s, t, c, e, cur = args5(cx)
-        eng, st = cx.eng, cx.st0
-        return [('match-is-a-string', V.is_str(cx.old(s, 'match'))),
-                ('enforcer-is-an-object', V.is_obj(e))] + rules_store_pre(eng, st, cx.old(e, 'rules'))
+    rule_pre = ev_pre
 
     def rule_post(cx, out):
         s, t, c, e, cur = args5(cx)
@@ -147,27 +161,13 @@ def register(reg, stubs, world):
                          z3.And(EVX(child, t, c, e, cur) == KE, out.value == FALSE))))]
         return [('propagates-only-the-definitions-exception',
                  z3.And(found, EVX(child, t, c, e, cur) == eng.cid(out.exc.cname)))]
-    reg.add(Contract('_checks:RuleCheck.__call__', pre=rule_pre, post=rule_post, defs=eval_defs,
+    reg.add(Contract('_checks:RuleCheck.__call__', pre=rule_pre, post=rule_post, defs=eval_defs, axioms=ev_axioms,
                      raises=('$OtherException',), props=('C06', 'C03'),
                      assumptions=('a KeyError raised inside the referenced definition is indistinguishable from an '
                                   'undefined reference and denies (stated in the contract, outside C06\'s quantifier)',)))
 
     # ------------------------------------------------------------------ role:X  (C04)
-    def role_pre(cx):
-        s, t, c, e, cur = args5(cx)
-        eng, st = cx.eng, cx.st0
-        m = cx.old(s, 'match')
-        cm = eng.map_of(st, c)
-        roles = z3.Select(cm, z3.StringVal('roles'))
-        rs = eng.seq_of(st, roles)
-        j = z3.Int('rp!j')
-        return [('match-is-a-string-with-well-formed-placeholders', z3.And(V.is_str(m), wfp(V.s(m)))),
-                ('target-is-a-mapping', mapping(eng, st, t)),
-                ('creds-is-a-mapping', mapping(eng, st, c)),
-                ('roles-if-present-is-a-list-of-strings',
-                 z3.Implies(roles != ABSENT, z3.And(
-                     eng.is_listlike(st, roles),
-                     qforall([j], z3.Implies(z3.And(j >= 0, j < z3.Length(rs)), V.is_str(rs[j]))))))]
+    role_pre = ev_pre
 
     def role_post(cx, out):
         s, t, c, e, cur = args5(cx)
@@ -183,7 +183,8 @@ def register(reg, stubs, world):
         return [('bool', z3.Or(out.value == TRUE, out.value == FALSE)),
                 ('allows-iff-role-held-ignoring-case',
                  (out.value == TRUE) == z3.And(fmt_ok(m, tm), roles != ABSENT, holds))]
-    reg.add(Contract('_checks:RoleCheck.__call__', pre=role_pre, post=role_post, defs=eval_defs, props=('C04', 'C14')))
+    reg.add(Contract('_checks:RoleCheck.__call__', pre=role_pre, post=role_post, defs=eval_defs, axioms=ev_axioms,
+                     props=('C04', 'C14')))
 
     # ------------------------------------------------------------------ generic lhs:rhs  (C05, C14)
     def find_pre(cx):
@@ -191,16 +192,20 @@ def register(reg, stubs, world):
         tv, segs, m = cx['test_value'], cx['path_segments'], cx['match']
         sq = eng.seq_of(st, segs)
         j = z3.Int('fp!j')
-        return [('value-is-json-like', z3.And(jsonlike(tv), z3.Not(V.is_obj(tv)))),
+        return [('value-is-json-like', z3.And(jsonlike(eng.val(st, tv)), z3.Implies(V.is_obj(tv), z3.And(
+                    V.is_dict(eng.val(st, tv)),
+                    z3.Or(clsof(V.ref(tv)) == eng.cid('dict'), clsof(V.ref(tv)) == eng.cid('$PolicyValues')))))),
                 ('segments-is-a-list-of-strings', z3.And(
                     eng.is_listlike(st, segs),
                     qforall([j], z3.Implies(z3.And(j >= 0, j < z3.Length(sq)), V.is_str(sq[j]))))),
-                ('match-is-a-string', V.is_str(m))]
+                ('match-is-a-string', V.is_str(m)),
+                ('a-mapping-object-is-only-the-root-of-a-non-empty-path',
+                 z3.Implies(V.is_obj(tv), z3.Length(sq) >= 1))]
 
     def find_axioms(cx):
         eng, st = cx.eng, cx.st0
         tv, segs, m = cx['test_value'], cx['path_segments'], cx['match']
-        return json_axioms(eng, tv) + [walk_unfold(eng, tv, eng.seq_of(st, segs), V.s(m))]
+        return json_axioms(eng, tv) + [walk_unfold(eng, eng.val(st, tv), eng.seq_of(st, segs), V.s(m))]
 
     def find_post(cx, out):
         eng, st = cx.eng, cx.st0
@@ -208,7 +213,7 @@ def register(reg, stubs, world):
             return [z3.BoolVal(False)]
         tv, segs, m = cx['test_value'], cx['path_segments'], cx['match']
         sq = eng.seq_of(st, segs)
-        return [('is-walk', out.value == mk_bool(walk(tv, sq, V.s(m))))]
+        return [('is-walk', out.value == mk_bool(walk(eng.val(st, tv), sq, V.s(m))))]
 
     def find_result(cx, st):
         return cx.eng.fresh('found')
@@ -222,16 +227,10 @@ def register(reg, stubs, world):
                  forall_idx(L.i, lambda k: z3.Not(walk(L.elem(k), rest, m)), 'finv'))]
     reg.add(Contract('_checks:GenericCheck._find_in_dict', pre=find_pre, post=find_post,
                      loops={1: LoopSpec(find_inv)}, props=('C05', 'C14'), axioms=find_axioms,
+                     cases=lambda cx: [V.is_obj(cx['test_value']), z3.Not(V.is_obj(cx['test_value']))],
                      doc='equals walk(): dict step, missing key or non-container denies, lists fan out'))
 
-    def gen_pre(cx):
-        s, t, c, e, cur = args5(cx)
-        eng, st = cx.eng, cx.st0
-        m, k = cx.old(s, 'match'), cx.old(s, 'kind')
-        return [('match-is-a-string-with-well-formed-placeholders', z3.And(V.is_str(m), wfp(V.s(m)))),
-                ('kind-is-a-string', V.is_str(k)),
-                ('target-is-a-mapping', mapping(eng, st, t)),
-                ('creds-is-json-like', z3.And(jsonlike(c), V.is_dict(c)))]
+    gen_pre = ev_pre
 
     def gen_post(cx, out):
         s, t, c, e, cur = args5(cx)
@@ -250,7 +249,63 @@ def register(reg, stubs, world):
                             (out.value == TRUE) == (rhs == z3.If(V.is_str(litval(k)), V.s(litval(k)), pystr(litval(k)))))),
                 ('path-left-side-walks-the-credentials',
                  z3.Implies(z3.And(fmt_ok(m, tm), z3.Not(is_literal(k))),
-                            (out.value == TRUE) == walk(c, segs, rhs)))]
+                            (out.value == TRUE) == walk(eng.val(st, c), segs, rhs)))]
     reg.add(Contract('_checks:GenericCheck.__call__', pre=gen_pre, post=gen_post, defs=eval_defs,
-                     axioms=lambda cx: json_axioms(cx.eng, args5(cx)[2]),
+                     axioms=ev_axioms,
                      props=('C05', 'C14')))
+
+    # ------------------------------------------------------------------ printers (C15)
+    def str_defs(cx, out):
+        return [pr(cx['self']) == V.s(out.value)] if out.kind == 'ret' else []
+
+    def pconst(text):
+        return lambda cx, out: [('prints-' + text, out.value == mk_str(text))] if out.kind == 'ret' else [z3.BoolVal(False)]
+    reg.add(Contract('_checks:TrueCheck.__str__', post=pconst('@'), defs=str_defs, props=('C15',)))
+    reg.add(Contract('_checks:FalseCheck.__str__', post=pconst('!'), defs=str_defs, props=('C15',)))
+
+    def leaf_str_pre(cx):
+        return [('well-formed-tree', wf_tree(cx['self']))]
+
+    def tr_axioms(cx):
+        return tree_axioms(cx.eng, cx.st0)
+
+    def leaf_str_post(cx, out):
+        s = cx['self']
+        if out.kind != 'ret':
+            return [z3.BoolVal(False)]
+        return [('prints-kind:match', out.value == V.str(z3.Concat(V.s(cx.old(s, 'kind')), z3.StringVal(':'),
+                                                                  V.s(cx.old(s, 'match')))))]
+    reg.add(Contract('_checks:Check.__str__', pre=leaf_str_pre, post=leaf_str_post, defs=str_defs, axioms=tr_axioms, props=('C15',)))
+
+    def not_str_post(cx, out):
+        s = cx['self']
+        if out.kind != 'ret':
+            return [z3.BoolVal(False)]
+        return [('prints-not-prefix', out.value == V.str(z3.Concat(z3.StringVal('not '), pr(cx.old(s, 'rule')))))]
+    reg.add(Contract('_checks:NotCheck.__str__', pre=leaf_str_pre, post=not_str_post, defs=str_defs, axioms=tr_axioms, props=('C15',)))
+
+    def conn_str_post(word):
+        def post(cx, out):
+            s = cx['self']
+            if out.kind != 'ret':
+                return [z3.BoolVal(False)]
+            seq = cx.eng.seq_of(cx.st0, cx.old(s, 'rules'))
+            P = cx.fresh('printed', SeqV)
+            j = z3.Int('ps!j')
+            return [('prints-parenthesised-join', z3.Exists([P], z3.And(
+                z3.Length(P) == z3.Length(seq),
+                qforall([j], z3.Implies(z3.And(j >= 0, j < z3.Length(seq)), P[j] == V.str(pr(seq[j])))),
+                out.value == V.str(z3.Concat(z3.StringVal('('), f_join(z3.StringVal(' %s ' % word), P),
+                                             z3.StringVal(')'))))))]
+        return post
+    printed = LoopSpec(summary=lambda L, j: [V.str(pr(L.elem(j)))])
+    reg.add(Contract('_checks:AndCheck.__str__', pre=leaf_str_pre, post=conn_str_post('and'), defs=str_defs,
+                     axioms=tr_axioms, loops={1: printed}, props=('C15',)))
+    reg.add(Contract('_checks:OrCheck.__str__', pre=leaf_str_pre, post=conn_str_post('or'), defs=str_defs,
+                     axioms=tr_axioms, loops={1: printed}, props=('C15',)))
+
+    # str() of any other object (user-defined checks, opaque objects): some string, no exception
+    def anystr_post(cx, out):
+        return [out.value == V.str(pr(cx['o']))] if out.kind == 'ret' else [z3.BoolVal(False)]
+    reg.add(Contract('$str', post=anystr_post, params=['o'], trusted=True,
+                     doc='str(o) of an object without a __str__ contract returns some string (pr(o)) and does not raise'))
